@@ -438,6 +438,9 @@ class Gen(object):
                "maxsize": None, "items": items}
         if self.p(0.06):
             req["ts"] = self.now - self.ch([0, 1, 59, 0, 1, 5, 60, 61, -1, 1000])
+        elif self.p(0.02):
+            # any signed 64-bit Date-Time is a legal header Time Stamp (far beyond what time.gmtime renders)
+            req["ts"] = self.ch([2 ** 60, -2 ** 60, 2 ** 63 - 1, -2 ** 63, 2 ** 56, 253402300800, -62135596801])
         if self.p(0.04):
             req["async"] = self.p(0.3)
         if nitems > 1 or self.p(0.1):
